@@ -188,6 +188,31 @@ Proof.
   right. exists 9. split; [simpl; auto|reflexivity].
 Qed.
 
+(* non-vacuity of the history theorem: one class-level default object (cell 0);
+   argument object, construction, del, reset() in place, with_<attr> on a copy *)
+Definition exh_h0 : list obj := [OList [VInt 1]].
+Definition exh_ops : list (op * option nat) :=
+  [(OpAlloc (OList [VInt 8]), None);
+   (OpConstruct 2 None [(52, VRef 1)], None);
+   (OpDelAttr 2 50, None);
+   (OpHelper 2 HResetTop (mkh [] true true VMissing false None None [] None), None);
+   (OpHelper 2 (HWith 51) (mkh [VRef 1] false true VMissing false None None [] None), None)].
+
+Example C08_history_nonvacuous :
+  Forall (fun p => hist_op_ok ex8_ct 1 (fst p)) exh_ops /\
+  (let '(s', roots') := run_ops ex8_ct (mkst exh_h0 0 None) [VRef 0] exh_ops in
+   roots' = [VRef 0; VRef 1; VRef 2; VNone; VRef 2; VRef 9] /\
+   nth_error (heap s') 0 = Some (OList [VInt 1]) /\
+   nth_error (heap s') 2 = Some (OInst 2 [(50, VRef 7); (51, VRef 8)]) /\
+   nth_error (heap s') 9 = Some (OInst 2 [(50, VRef 10); (51, VRef 1)])).
+Proof.
+  split.
+  - repeat constructor; simpl; auto;
+      try (match goal with H : In _ _ |- _ => destruct H as [E|[]]; inversion E; subst; simpl; left; lia end);
+      try (left; lia); try discriminate.
+  - vm_compute. repeat split; reflexivity.
+Qed.
+
 Print Assumptions C08_construct_fresh.
 Print Assumptions C08_default_is_fresh.
 Print Assumptions C08_reset_keeps_defaults_isolated.
@@ -195,3 +220,4 @@ Print Assumptions C08_defaults_isolated.
 Print Assumptions C08_reset_installs_what_init_assigns.
 Print Assumptions C08_initial_state_isolated.
 Print Assumptions C08_nonvacuous.
+Print Assumptions C08_history_nonvacuous.
